@@ -657,6 +657,19 @@ fn run_l3(case: &str, parts: &[&str], drv: &mut Driver, rep: &mut Report) {
     }
     let out = printer.into_inner().into_inner();
     l3_model_check(case, &matcher, &tmpl, &input, crlf, ml_eff, &blocks_seen, &out, impl_panicked, drv, rep);
+    // class predicate of `multiline-match-beyond-block` (since 2e6bd1f: such a match is left unreplaced so that its
+    // expansion cannot copy bytes from beyond the reported lines): in the haystack the printer re-searches (cut
+    // MAX_LOOK_AHEAD bytes behind the block) a match starts inside a reported block and ends beyond it
+    let refound_beyond_block = ml_eff && blocks_seen.iter().any(|b| l3_match_beyond_block(&matcher, &input, b));
+    if refound_beyond_block {
+        rep.branch("l3:refound-match-beyond-block");
+        // the C14 side of it, checked directly with the identity template `$0`: replacing every match by itself
+        // must print exactly the reported blocks — a replaced match reaching beyond its block would add bytes
+        // the searcher never delivered (seed witness `rg -U -r '[$0]' 'a\n[^\n]{128}\z|Q'`)
+        if !crlf {
+            l3_identity_probe(case, &matcher, &input, &blocks_seen, rep);
+        }
+    }
     // shadow run (model comparison only): the same search on the input followed by 150 bytes of filler lines, so
     // that `replace_all` really cuts the haystack MAX_LOOK_AHEAD bytes after the block
     if ml_eff && fnv(case.as_bytes()) % 4 == 0 {
@@ -768,7 +781,7 @@ fn run_l3(case: &str, parts: &[&str], drv: &mut Driver, rep: &mut Report) {
         // changes the number of lines (line numbers of later lines of the block), and CRLF blocks (F19 family)
         let class = if guard == "0" {
             "braced-name-outside-capletters"
-        } else if lookahead_sensitive {
+        } else if lookahead_sensitive || refound_beyond_block {
             "multiline-match-beyond-block"
         } else if empty_after_match {
             "multiline-empty-match-directly-after-a-match"
@@ -975,6 +988,56 @@ fn l3_model_check(
             tie: tie.into(),
             case: case.to_string(),
             detail: format!("input {:?}: printer {:?} model {:?}", show(input), show(out), show(&model_out)),
+        });
+    }
+}
+
+/// Does the printer's re-search of block `b` (haystack cut 128 bytes behind it, from the block's start) find a match
+/// that starts inside the block and ends beyond it?
+fn l3_match_beyond_block(matcher: &grep_regex::RegexMatcher, input: &[u8], b: &L3Block) -> bool {
+    let cut = if input.len() - b.re >= 128 { b.re + 128 } else { input.len() };
+    let mut hit = false;
+    let _ = matcher.find_iter_at(&input[..cut], b.rs, |m| {
+        if m.start() >= b.re {
+            return false;
+        }
+        if m.end() > b.re {
+            hit = true;
+            return false;
+        }
+        true
+    });
+    hit
+}
+
+/// `-U -r '$0'` must print the reported blocks themselves (each line terminated), nothing more.
+fn l3_identity_probe(case: &str, matcher: &grep_regex::RegexMatcher, input: &[u8], blocks: &[L3Block], rep: &mut Report) {
+    let mut printer = StandardBuilder::new().replacement(Some(b"$0".to_vec())).build_no_color(vec![]);
+    let mut searcher = SearcherBuilder::new()
+        .multi_line(true)
+        .line_number(false)
+        .line_terminator(grep_matcher::LineTerminator::byte(b'\n'))
+        .build();
+    let r = std::panic::catch_unwind(std::panic::AssertUnwindSafe(|| searcher.search_slice(matcher, input, printer.sink(matcher))));
+    if !matches!(r, Ok(Ok(()))) {
+        return;
+    }
+    let out = printer.into_inner().into_inner();
+    let mut want = vec![];
+    for b in blocks {
+        want.extend_from_slice(&input[b.rs..b.re]);
+        if input[b.rs..b.re].last() != Some(&b'\n') {
+            want.push(b'\n');
+        }
+    }
+    rep.branch("l3:identity-probe");
+    if out != want {
+        rep.violation(Violation {
+            kind: "impl_vs_spec".into(),
+            class: "".into(),
+            tie: "rg -U -r '$0' prints the reported lines, no byte from beyond them (C19 / C14)".into(),
+            case: case.to_string(),
+            detail: format!("input {:?}: printed {:?}, the reported blocks are {:?}", show(input), show(&out), show(&want)),
         });
     }
 }
